@@ -149,7 +149,32 @@ func genBody(t *rapid.T, depth int) string {
 func deepText(t *rapid.T) string {
 	d := rapid.IntRange(20, 45).Draw(t, "depth")
 	var b strings.Builder
-	switch rapid.IntRange(0, 3).Draw(t, "deepkind") {
+	switch rapid.IntRange(0, 6).Draw(t, "deepkind") {
+	case 6:
+		// ranges nested d deep inside an attribute value whose text is of no consequence (F-attrloop)
+		b.WriteString(`<p title="`)
+		for i := 0; i < d; i++ {
+			b.WriteString("{{range .L}}a")
+		}
+		for i := 0; i < d; i++ {
+			b.WriteString("{{end}}")
+		}
+		b.WriteString(`">x</p>`)
+	case 5:
+		// a helper that calls itself k times, called from a loop inside a URL value: the comparison of its copies on
+		// re-entry must not expand the calls (F-rewriteform)
+		k := rapid.IntRange(5, 9).Draw(t, "selfcalls")
+		b.WriteString(`{{define "t"}}{{if .Next}}`)
+		for i := 0; i < k; i++ {
+			b.WriteString(`{{template "t" .Next}}`)
+		}
+		b.WriteString(`{{end}}/a{{end}}<a href="{{range .L}}{{template "t" $}}{{end}}">x</a>`)
+	case 4:
+		// the error sits at the END of a plain call chain (F-errpass: every caller analysed its failing callee twice)
+		for i := 0; i < d; i++ {
+			fmt.Fprintf(&b, `{{define "c%d"}}<p>{{template "c%d" .}}</p>{{end}}`, i, i+1)
+		}
+		fmt.Fprintf(&b, `{{define "c%d"}}%s{{end}}{{template "c0" .}}`, d, rapid.SampledFrom([]string{`<a b"c>`, `<a href="{{.V}}`, `<p {{.V}}>`}).Draw(t, "leaferr"))
 	case 3:
 		// lists nested d deep, an element per level: every body starts inside <ul> and ends after </li>
 		for i := 0; i < d; i++ {
